@@ -30,7 +30,7 @@ def alphabet(nx=4, safe=False, unkey=None, variant='plain'):
             val = ('frac', recv[0])
         elif variant == 'plain':
             val = stubs._value(*recv)
-        elif variant in ('ignore_y', 'ignore_1'):
+        elif variant in ('ignore_y', 'ignore_1', 'ignore_w'):
             val = stubs._value(recv[0], 0)
         else:
             val = stubs._value(int(round(recv[0])), 0)
@@ -52,6 +52,14 @@ def alphabet(nx=4, safe=False, unkey=None, variant='plain'):
         add((), {'y': 0, 'x': L + '1'}, (L + '1', 0), (1, 0))
         add((7,), {}, (7, 0), (7, 0), 'raise')
         add((8,), {}, (8, 0), (8, 0), 'raise')
+    elif variant == 'ignore_w':    # def w(x, why=0) decorated with ignore='why' (a bare string of several characters)
+        for x in xs:
+            add((x,), {}, (x, 0), (x,))
+        add((1, 5), {}, (1, 5), (1,))
+        add((), {'x': 2, 'why': 9}, (2, 9), (2,))
+        add((), {'why': 3, 'x': 1}, (1, 3), (1,))
+        add((7, 2), {}, (7, 2), (7,), 'raise')
+        add((8,), {}, (8, 0), (8,), 'raise')
     elif variant in ('ignore_y', 'ignore_1'):
         for x in xs:
             add((x,), {}, (x, 0), (x,))
@@ -89,6 +97,10 @@ def alphabet(nx=4, safe=False, unkey=None, variant='plain'):
     if safe and unkey is not None:
         E.append({'args': (unkey,), 'kw': {}, 'recv': (unkey, 0), 'cls': None, 'kind': 'unkey',
                   'expect': stubs._value(unkey, 0)})
+        # ... and one for which the function raises (a list cannot carry the marker: an instance of a marked class)
+        cls = type(unkey) if not isinstance(unkey, list) else stubs.BadRepr
+        bad = type('Raising' + cls.__name__, (cls,), {'klepto_verif_raises': True, '__module__': stubs.__name__})()
+        E.append({'args': (bad,), 'kw': {}, 'recv': (bad, 0), 'cls': None, 'kind': 'unkeyraise', 'expect': None})
     return E
 
 
@@ -180,7 +192,7 @@ class Recorder(object):
                 unkey = stubs.BAD_BY_KIND.get(kind, stubs.BadRepr)()
         self.variant = cfg.get('variant', 'plain')
         self.args = alphabet(cfg.get('nx', 4), self.safe, unkey, self.variant)
-        self.funcs = {'plain': stubs.FUNCS, 'long': stubs.LFUNCS, 'frac': stubs.QFUNCS, 'ignore_y': stubs.GFUNCS, 'ignore_1': stubs.GFUNCS, 'tol0': stubs.HFUNCS,
+        self.funcs = {'plain': stubs.FUNCS, 'long': stubs.LFUNCS, 'ignore_w': stubs.WFUNCS, 'frac': stubs.QFUNCS, 'ignore_y': stubs.GFUNCS, 'ignore_1': stubs.GFUNCS, 'tol0': stubs.HFUNCS,
                       'tol1': stubs.TFUNCS}[self.variant]
         self.ni = cfg.get('ni', 1)
         self.na = cfg.get('na', 2)
@@ -309,6 +321,8 @@ class Recorder(object):
             kw['ignore'] = ('y',)
         elif self.variant == 'ignore_1':
             kw['ignore'] = (1,)
+        elif self.variant == 'ignore_w':
+            kw['ignore'] = 'why'         # a single name, not wrapped in a tuple
         elif self.variant == 'tol0':
             kw['tol'] = 0
         elif self.variant == 'tol1':
@@ -425,10 +439,10 @@ class Recorder(object):
         for (name, x, y) in new:
             a = ev.get('a')
             ent = self.args[a - 1] if a is not None else None
-            if ent is not None and ent['kind'] != 'unkey' and ent['recv'] == (x, y) \
+            if ent is not None and ent['kind'] not in ('unkey', 'unkeyraise') and ent['recv'] == (x, y) \
                     and type(ent['recv'][0]) is type(x):
                 evs.append(a)
-            elif ent is not None and ent['kind'] == 'unkey' and x is ent['recv'][0]:
+            elif ent is not None and ent['kind'] in ('unkey', 'unkeyraise') and x is ent['recv'][0]:
                 evs.append(a)
             else:
                 evs.append(99)
@@ -458,6 +472,8 @@ class Recorder(object):
         try:
             dec = cls(*pos, **kw)
             f = dec(self.funcs[i - 1])
+            if self.cfg.get('reuse'):
+                dec(stubs.other_function)        # the same decorator object decorates a second function (never called)
             f.info()
             self.inst[i - 1] = f
             self.icfg[i - 1] = icfg
@@ -481,7 +497,7 @@ class Recorder(object):
         is the storage key; C09/C10 check canonicalisation and discrimination on their own)"""
         bindings = []
         for ent in self.args:
-            if ent['kind'] != 'unkey' and ent['cls'] not in bindings:
+            if ent['kind'] not in ('unkey', 'unkeyraise') and ent['cls'] not in bindings:
                 bindings.append(ent['cls'])
         self.bindings = bindings
         self.nk = len(bindings) + 1          # last id collects unknown keys
@@ -495,7 +511,7 @@ class Recorder(object):
         if f is None:
             return
         for n, ent in enumerate(self.args, 1):
-            if ent['kind'] == 'unkey':
+            if ent['kind'] in ('unkey', 'unkeyraise'):
                 continue
             try:
                 rk = f.key(*ent['args'], **ent['kw'])
@@ -517,7 +533,10 @@ class Recorder(object):
         fk = [-1] * self.nk
         for ent in self.args:
             kinds.append(ent['kind'])
-            if ent['kind'] == 'unkey':
+            if ent['kind'] == 'unkeyraise':
+                keyof.append(1)
+                fvals.append(0)
+            elif ent['kind'] == 'unkey':
                 keyof.append(1)
                 fvals.append(1410)
             else:
@@ -561,7 +580,7 @@ class Recorder(object):
                     # archive (its key is archived and not resident): the event is then tagged "rfault"
                     c = f.__cache__()
                     prev = self.events[-1]
-                    k = self.bindings.index(ent['cls']) + 1 if ent['kind'] != 'unkey' else None
+                    k = self.bindings.index(ent['cls']) + 1 if ent['kind'] not in ('unkey', 'unkeyraise') else None
                     cur = prev['cur'][i - 1]
                     if k is not None and cur and hasattr(c.archive, 'fail_read_next') and c.archived() \
                             and prev['mem'][i - 1][k - 1] == 0 and prev['archs'][cur - 1][k - 1] != 0:
